@@ -86,6 +86,90 @@ def run(ctx):
                             method_loc(repo, kq, gk))
         ctx.floor(rs, 20)
 
+    if ctx.want("R1b"):
+        rs = ctx.rule("R1b", "walkers whose handlers have side effects (output, counters) use a one-shot memo")
+        for q in walkers:
+            if q.startswith("pysmt.solvers.") and not q.endswith("qelim.ShannonQuantifierEliminator"):
+                continue          # solver converters: results are solver terms, side effects are declarations
+            groups = handler_funcs(q)
+            clo = class_closure(repo, q, [(h.cls, h.func) for h, _ in groups])
+            eff = []
+            for (cls, name), f in sorted(clo.items()):
+                for c in calls_in(f):
+                    if isinstance(c.func, ast.Attribute) and is_self_attr(c.func.value) is False and False:
+                        pass
+                    if isinstance(c.func, ast.Attribute) and isinstance(c.func.value, ast.Name) and c.func.value.id == "self" \
+                            and c.func.attr == "write":
+                        eff.append((cls, name, "self.write(...)"))
+                for t, st in stores_in(f):
+                    if isinstance(st, ast.AugAssign) and is_self_attr(t):
+                        eff.append((cls, name, "self.%s %s=" % (t.attr, type(st.op).__name__)))
+            if not eff:
+                rs.ok({"class": q.split(".")[-1], "effectful_handlers": 0})
+                continue
+            one_shot = _one_shot(repo, q)
+            if one_shot is True:
+                rs.ok({"class": q.split(".")[-1], "effectful_handlers": len(eff), "memo": "one-shot"})
+            elif one_shot is None:
+                rs.unrec("%s: effectful handlers, construction not understood" % q)
+            else:
+                cls, name, what = eff[0]
+                ctx.finding(rs, "%s|effectful-handlers-with-persistent-memo" % q,
+                            "%s keeps its memo across calls (%s) although its handlers have side effects (%s in %s): a "
+                            "memo hit on a later call returns the old result without repeating the effect - e.g. a let "
+                            "name that was never written to the new output" % (q.split(".")[-1], one_shot, what, name),
+                            method_loc(repo, cls, clo[(cls, name)]))
+        ctx.floor(rs, 20)
+
+    if ctx.want("R6"):
+        rs = ctx.rule("R6", "accumulating walker state is reset together (tables filled together, memo included)")
+        for q in walkers:
+            groups = handler_funcs(q)
+            own = [(h, o) for h, o in groups if h.cls == q or h.cls in repo.mro(q)]
+            clo = class_closure(repo, q, [(h.cls, h.func) for h, _ in groups])
+            acc = set()
+            for (cls, name), f in clo.items():
+                if cls == DAG or cls == "pysmt.walkers.generic.Walker":
+                    continue
+                for t, st in stores_in(f):
+                    if isinstance(t, ast.Subscript) and is_self_attr(t.value):
+                        acc.add(t.value.attr)
+                for c in calls_in(f):
+                    if isinstance(c.func, ast.Attribute) and c.func.attr in ("add", "append", "setdefault", "update") and \
+                            is_self_attr(c.func.value):
+                        acc.add(c.func.value.attr)
+                    if isinstance(c.func, ast.Attribute) and c.func.attr in ("add", "append") and isinstance(c.func.value, ast.Call) \
+                            and isinstance(c.func.value.func, ast.Attribute) and is_self_attr(c.func.value.func.value):
+                        acc.add(c.func.value.func.value.attr)      # self.x.setdefault(k, set()).add(v)
+            acc -= {"memoization", "stack", "functions"}
+            if len(acc) < 1:
+                continue
+            full = acc | {"memoization"}
+            ci = repo.classes[q]
+            for nm in ci.order:
+                f = ci.own_func(nm)
+                if f is None or nm == "__init__":
+                    continue
+                cleared = set()
+                for t, st in stores_in(f):
+                    if is_self_attr(t) and t.attr in full and isinstance(st, ast.Assign) and \
+                            (isinstance(st.value, (ast.Dict, ast.Set, ast.List)) or (isinstance(st.value, ast.Call) and attr_tail(st.value) in ("dict", "set", "list"))):
+                        cleared.add(t.attr)
+                for c in calls_in(f):
+                    if isinstance(c.func, ast.Attribute) and c.func.attr == "clear" and is_self_attr(c.func.value) and \
+                            c.func.value.attr in full:
+                        cleared.add(c.func.value.attr)
+                if cleared and cleared != full and cleared != {"memoization"}:
+                    ctx.finding(rs, "%s.%s|partial-reset|%s" % (q, nm, ",".join(sorted(cleared))),
+                                "%s.%s clears %s but not %s: the tables are filled together by the handlers (and guarded by "
+                                "the memo), so after this partial reset a second call on the same object sees entries of "
+                                "one table without the matching entries of the others"
+                                % (q.split(".")[-1], nm, sorted(cleared), sorted(full - cleared)), method_loc(repo, q, f))
+                elif cleared:
+                    rs.ok({"class": q.split(".")[-1], "method": nm, "clears": sorted(cleared)})
+            rs.ok({"class": q.split(".")[-1], "accumulators": sorted(acc)})
+        ctx.floor(rs, 3)
+
     if ctx.want("R4"):
         rs = ctx.rule("R4", "handlers of environment singletons write no instance attribute")
         for slot, q in sorted(env_singletons(repo).items()):
